@@ -85,6 +85,8 @@ def measure(scn, H, stats):
             m['F_REDECLARE'] += 1
         elif rec['op'] == 'set_pwm' and rec['exc'] is None:
             m['F_SETPWM'] += 1
+        elif rec['op'] == 'set_load' and rec['exc'] is None:
+            m['F_SETLOAD'] += 1
         elif rec['op'] == 'export' and rec.get('io', {}).get('fired'):
             m['F_IO'] += 1
     for b in H.get('build', []):
